@@ -60,7 +60,7 @@ class Unit:
         self.notes = []
 
 
-DIRECTIVES = ('assert', 'forwhile', 'selfparam', 'props', 'requires', 'ensures', 'loop', 'rewrite', 'rewrite*', 'insert', 'emit', 'attr', 'rename',
+DIRECTIVES = ('boxiter', 'assert', 'forwhile', 'selfparam', 'props', 'requires', 'ensures', 'loop', 'rewrite', 'rewrite*', 'insert', 'emit', 'attr', 'rename',
               'ret', 'end', 'recommends', 'decreases', 'nocanary')
 
 
@@ -149,6 +149,8 @@ def parse_unit(path):
                 cur.nocanary = True
             elif first == 'selfparam':
                 cur.selfparam = rest
+            elif first == 'boxiter':
+                cur.boxiter = True
             elif first == 'assert':
                 m = re.match(r'([\w.\-]+)\s*(?:\[([^\]]*)\])?\s*(after|before|loopend)(?:\[(\d+)\])?\s*(?:`(.*?)`)?\s*:\s*(.*)$', rest, re.S)
                 if not m:
@@ -621,6 +623,13 @@ def emit_fn(asm, unit, fs, src, canary):
         log.append('R12')
     ed.soft = True
     global_rewrites(src, ed, fn_kw, bc + 1, log, item_ty)
+    if getattr(fs, 'boxiter', False):
+        # R1b: in a function that returns a boxed iterator, every remaining `Box::new(` boxes an iterator
+        for m in src.find_code(r'\bBox::new\(', bo, bc + 1):
+            n_before = len(ed.edits)
+            ed.add(m.start(), m.end(), 'AbsIter::wrap(', ('rw', 'R1b'))
+            if len(ed.edits) > n_before:
+                log.append('R1b')
     ed.soft = False
     # contract clauses at the signature
     sig = []
